@@ -206,19 +206,65 @@ func (w *World) verifyFunc(fn *ssa.Function, fc *FuncContract, mode string, extr
 				exits = append(exits, exitT{&Env{c: c, st: r.st, old: entry, vars: pv, pkg: pkg, guard: r.cond}, r.cond, fmt.Sprintf("@ret%d", k+1)})
 			}
 		}
-		for i, en := range fc.Ensures {
-			label := en.Label
-			if label == "" {
-				label = fmt.Sprintf("post%d", i+1)
+		labelOf := func(i int) string {
+			if fc.Ensures[i].Label != "" {
+				return fc.Ensures[i].Label
 			}
+			return fmt.Sprintf("post%d", i+1)
+		}
+		obligeEnsures := func(i int) {
+			label := labelOf(i)
 			for _, ex := range exits {
-				for k, cj := range c.splitGoal(ex.env, en.E) {
+				for k, cj := range c.splitGoal(ex.env, fc.Ensures[i].E) {
 					nm := label
 					if cj.n > 1 {
 						nm = fmt.Sprintf("%s.%d", label, k+1)
 					}
 					c.oblige("ensures", nm+ex.sfx, ex.cond, cj.t)
 				}
+			}
+		}
+		var deferred []int
+		for i := range fc.Ensures {
+			if len(fc.Uses[labelOf(i)]) > 0 {
+				deferred = append(deferred, i)
+				continue
+			}
+			obligeEnsures(i)
+		}
+		runDeferred := func() {
+			// postconditions with a `uses` clause come last: the postconditions they name (each proved on its own
+			// from the same exit state) are assumed first
+			for _, i := range deferred {
+				// `hiding P Q`: these predicates stay atoms while the used postconditions are assumed and this one is proved
+				saved := map[string]bool{}
+				for _, h := range fc.UsesHide[labelOf(i)] {
+					saved[h] = fc.Reveal[h]
+					delete(fc.Reveal, h)
+				}
+				restore := func() {
+					for h, v := range saved {
+						if v {
+							fc.Reveal[h] = true
+						}
+					}
+				}
+				for _, u := range fc.Uses[labelOf(i)] {
+					found := false
+					for j := range fc.Ensures {
+						if labelOf(j) == u && len(fc.Uses[u]) == 0 {
+							found = true
+							for _, ex := range exits {
+								c.assume(ex.cond, ex.env.evalBool(fc.Ensures[j].E))
+							}
+						}
+					}
+					if !found {
+						c.fail("uses: no plain postcondition labelled %q in %s", u, fc.Key())
+					}
+				}
+				obligeEnsures(i)
+				restore()
 			}
 		}
 		if fc.HasModifies && !fc.ModAll {
@@ -228,6 +274,7 @@ func (w *World) verifyFunc(fn *ssa.Function, fc *FuncContract, mode string, extr
 		// vacuity: the function can return under its preconditions
 		o := c.oblige("cover", "cover{return}", "true", tNot(Rret))
 		o.Expect = "sat"
+		runDeferred()
 	}
 	if len(caseConds) > 0 {
 		var split []*Obl
